@@ -49,8 +49,8 @@ func c09(tier string) []*explore.Scenario {
 	for _, wf := range []bool{false, true} {
 		out = append(out, c09Many(40, 8, wf, 0), c09Many(64, 0, wf, 0), c09Many(0, 40, wf, 0), c09Many(3, 2, wf, 1))
 	}
-	out = append(out, withHistory(historyKinds(tier), c09One("1u1s", 1, false, 64, 1), c09One("2u", 1, true, 64, 1), c09One("1s", 2, false, 0, 1), c09Many(20, 4, false, 0))...)
-	out = append(out, withConfig(configKinds(tier), c09One("1u1s", 1, false, 64, 1), c09One("2u", 1, true, 64, 1), c09One("1s", 2, false, 0, 1), c09Many(20, 4, false, 0))...)
+	out = append(out, withHistory(historyKinds(tier), c09One("1u1s", 1, false, 64, 1), c09One("2u", 1, true, 64, 1), c09One("1s", 2, false, 0, 1), c09One("1s", 0, false, 64, 1), c09One("1u1s", 0, true, 0, 1), c09Many(20, 4, false, 0))...)
+	out = append(out, withConfig(configKinds(tier), c09One("1u1s", 1, false, 64, 1), c09One("2u", 1, true, 64, 1), c09One("1s", 2, false, 0, 1), c09One("1s", 0, false, 64, 1), c09One("1u1s", 0, true, 0, 1), c09Many(20, 4, false, 0))...)
 	return out
 }
 
@@ -85,6 +85,7 @@ func c09OneE(load string, k int, writeFails bool, capn, bound int, errv string) 
 			vsched.Settle()
 			vsched.Explore(true)
 			var us, ss []*env.Rec
+			hdrWaiters := 0
 			for i := 0; i < l.unary; i++ {
 				r := w.Rec(fmt.Sprintf("u%d", i), "Unary")
 				us = append(us, r)
@@ -96,12 +97,18 @@ func c09OneE(load string, k int, writeFails bool, capn, bound int, errv string) 
 				vsched.GoNamed("caller-"+r.Tag, func() {
 					cs := w.Open(d.CC, context.Background(), r)
 					if cs != nil {
+						// someone also waits for the response header, as the API allows
+						hdrWaiters++
+						vsched.GoNamed("header-"+r.Tag, func() { cs.Header(); hdrWaiters-- })
 						env.PPingPong(2)(r, cs)
 					}
 					r.CDone = true
 				})
 			}
 			vsched.Quiesce()
+			if hdrWaiters != 0 {
+				vsched.Fail(fam+"|hang", "a Header() call on a stream is blocked forever after the transport read failed at position %d (write side fails=%v)", k, writeFails)
+			}
 			failed := d.Pipe.A.ReadFailed
 			// calls started after the failure
 			ua := w.Rec("ua", "Unary")
